@@ -261,6 +261,9 @@ func (env *Env) ident(name string) (TV, error) {
 				return TV{t: "false", ty: tBool}, nil
 			}
 		case *types.Var:
+			if env.vc.w.readOnlyGlobal(env.pkg.Name(), name) {
+				return TV{t: env.vc.globalConst(env.pkg.Name(), name, o.Type()), ty: o.Type()}, nil
+			}
 			n := sym("glob$" + env.pkg.Name() + "." + name)
 			env.vc.e.decl("glob:"+n, fmt.Sprintf("(declare-const %s Int)\n(assert (< %s 0))", n, n))
 			comp := env.vc.e.cellComp(o.Type())
@@ -276,6 +279,24 @@ func (l *Loop) rangeKeyType(vc *FnVC) types.Type { return vc.loopRangeKey(l) }
 
 func (env *Env) sel(x *ESel) (TV, error) {
 	enc := env.vc.e
+	// pkg.Name: a package-level variable or constant of an imported package
+	if id, ok := x.X.(*EIdent); ok {
+		if _, err := env.ident(id.Name); err != nil {
+			for _, imp := range env.pkg.Imports() {
+				if imp.Name() != id.Name {
+					continue
+				}
+				if obj, ok := imp.Scope().Lookup(x.Name).(*types.Var); ok {
+					if env.vc.w.readOnlyGlobal(imp.Name(), x.Name) {
+						return TV{t: env.vc.globalConst(imp.Name(), x.Name, obj.Type()), ty: obj.Type()}, nil
+					}
+					n := sym("glob$" + imp.Name() + "." + x.Name)
+					enc.decl("glob:"+n, fmt.Sprintf("(declare-const %s Int)\n(assert (< %s 0))", n, n))
+					return TV{t: app("select", env.mem.get(enc.cellComp(obj.Type())), n), ty: obj.Type()}, nil
+				}
+			}
+		}
+	}
 	v, err := env.tr(x.X)
 	if err != nil {
 		return TV{}, err
